@@ -125,6 +125,16 @@ Theorem C08_posted_verbatim_read : forall st i t o c w,
 Proof. exact step_at_read. Qed.
 Print Assumptions C08_posted_verbatim_read.
 
+(* a ready file whose name is too short to hold a date is skipped (fix
+   8d04c54: it used to panic and abort the run): files, log unchanged, the
+   thread proceeds to the next ready file *)
+Theorem C08_short_name_skipped : forall st i t o c,
+  nth_error (s_ths st) i = Some t -> t_killed t = false -> t_pc t = URead ->
+  d_get (f_local (s_fs st)) (t_file t) = Some c -> fdate (t_file t) = None ->
+  step st (i, AStep o) = mkSt (s_fs st) (s_log st) (upd (s_ths st) i (advance t)).
+Proof. exact step_at_read_short. Qed.
+Print Assumptions C08_short_name_skipped.
+
 Theorem C08_posted_verbatim_kept : forall f a t e t',
   decide_all f a t = (e, t') -> buf_phase (t_pc t) = true -> buf_phase (t_pc t') = true ->
   t_buf t' = t_buf t /\ t_file t' = t_file t.
@@ -175,6 +185,16 @@ Definition ex_run3 : state :=
 Example C08_ex_empty_body_posted :
   s_log ex_run3 = [mkAck ex_week (CRep None) O200 1].
 Proof. vm_compute. reflexivity. Qed.
+
+(* a stray x.json is skipped and the report after it is still delivered *)
+Definition ex_fs5 : FS :=
+  mkFS [(s2b "0.json"%string, (0, CRaw 5%N)); (ready_name ex_week, (1, CRaw 7%N))] (Some []) 2.
+Example C08_ex_short_name_does_not_block :
+  let st := run [ex_S 0; ex_S 0; (0, APickNone); ex_S 0; ex_S 0; ex_S 0; ex_S 0; ex_S 0; ex_S 0; ex_S 0; ex_S 0]
+                (init_state ex_fs5 [ex_cfg]) in
+  s_log st = [mkAck ex_week (CRaw 7%N) O200 0] /\ quiescent st = true /\
+  d_mem (f_local (s_fs st)) (s2b "0.json"%string) = true.
+Proof. vm_compute. repeat split. Qed.
 
 (* a killed lock holder blocks the week for ever (liveness only without kills) *)
 Definition ex_run4 : state :=
